@@ -223,6 +223,37 @@ theorem repaired_witnesses_roundtrip :
     (witnessFor b!"Rename" b!"new_path" Gen.planTy).map (fun w => decide (de Gen.planTy (ser Gen.planTy w) = .ok w)) = some true := by
   decide
 
+-- loaders ------------------------------------------------------------------------------------------------
+
+/-- a plain loader is the parser -/
+theorem load_plain (accept : RVal → Bool) (t : Ty) (j : J) : load true accept t j = de t j := by
+  unfold load; cases de t j <;> simp
+
+/-- … and a loader with an acceptance condition is not: whatever parses but is not accepted is lost.
+    (`read_plan`-style version gates are of this form: the schema is fine, the value parses, the load fails.) -/
+theorem load_rejects (accept : RVal → Bool) (t : Ty) (v : RVal) (h : de t (ser t v) = .ok v) (hr : accept v = false) :
+    load false accept t (ser t v) = .error .rejected := by
+  unfold load; rw [h]; simp [hr]
+
+/-- **C17, code-level statement**: whatever the planners produce (any well-typed plan), written by the code and
+    read back by any of the code's loaders (`Gen.loaderSites`: apply from a path / an id / the default file, undo,
+    redo, status), is the same plan.  `Gen.loadersPlain_is_true` exists only if the translator found no rejection
+    depending on the loaded value after any parse of a `Plan`; a new acceptance condition removes it and this
+    theorem stops compiling. -/
+theorem plan_load_roundtrip_all (accept : RVal → Bool) (v : RVal) (hw : wellTyped Gen.planTy v = true) :
+    load Gen.loadersPlain accept Gen.planTy (ser Gen.planTy v) = .ok v := by
+  rw [Gen.loadersPlain_is_true, load_plain]; exact plan_roundtrip_all v hw
+
+theorem history_load_roundtrip_all (accept : RVal → Bool) (v : RVal) (hw : wellTyped Gen.historyTy v = true) :
+    load Gen.loadersPlain accept Gen.historyTy (ser Gen.historyTy v) = .ok v := by
+  rw [Gen.loadersPlain_is_true, load_plain]
+  exact Serde.roundtrip_of_schemaOk Gen.historyTy (by decide) v hw
+
+/-- non-vacuity of `load_rejects`: a version gate on a one-field plan -/
+example : load false (fun v => decide (v = .record [.str b!"1.0.0"])) (.struct b!"P" false [.mk b!"version" .str .never .required])
+            (ser (.struct b!"P" false [.mk b!"version" .str .never .required]) (.record [.str b!"0.6.0"]))
+          = .error .rejected := by decide
+
 /-- The mechanism in isolation (fixed schema, independent of the generated one): `skip_serializing_if`
     without `default` loses the empty string; with `default` it is restored. -/
 theorem skip_without_default_fails :
